@@ -233,6 +233,10 @@ def _as_dim(x):
 
 
 # ------------------------------------------------------------------ axes
+import numbers as _numbers
+_numbers.Integral.register(Dim)      # a Dim stands for a Python int (a size); `isinstance(d, numbers.Number)` holds
+
+
 class Axis:
     __slots__ = ("comps",)
 
